@@ -599,6 +599,8 @@ func ruleRootReadonly(c *Ctx) {
 					case c.isSpecFunc(x, "debugLog"):
 					case c.calleePkg(x) == "fmt" || c.calleePkg(x) == "log":
 						// formatting only reads
+					case c.isPkgFunc(x, "reflect", "ValueOf") && c.reflectValueOnlyInspected(fd, x):
+						// kind / nil-ness inspection only
 					default:
 						if g, ok := c.callee(x).(*types.Func); ok && g.Pkg() == c.Types && reach[g] {
 							continue // followed interprocedurally
@@ -669,4 +671,54 @@ func (c *Ctx) calleePkg(call *ast.CallExpr) string {
 		return f.Pkg().Path()
 	}
 	return ""
+}
+
+// reflectValueOnlyInspected: the reflect.Value obtained from the call is used only through read-only queries.
+func (c *Ctx) reflectValueOnlyInspected(fd *ast.FuncDecl, call *ast.CallExpr) bool {
+	var holder types.Object
+	ast.Inspect(fd.Body, func(n ast.Node) bool {
+		if as, ok := n.(*ast.AssignStmt); ok && len(as.Rhs) == 1 && unparen(as.Rhs[0]) == ast.Expr(call) {
+			if id, ok := as.Lhs[0].(*ast.Ident); ok {
+				holder = c.objOf(id)
+			}
+		}
+		return true
+	})
+	readOnly := map[string]bool{"Kind": true, "IsNil": true, "IsValid": true, "IsZero": true, "Type": true}
+	ok := true
+	parents := map[ast.Node]ast.Node{}
+	var stack []ast.Node
+	ast.Inspect(fd.Body, func(n ast.Node) bool {
+		if n == nil {
+			stack = stack[:len(stack)-1]
+			return true
+		}
+		if len(stack) > 0 {
+			parents[n] = stack[len(stack)-1]
+		}
+		stack = append(stack, n)
+		return true
+	})
+	if holder == nil {
+		// used inline: reflect.ValueOf(x).Kind()
+		se, isSel := parents[call].(*ast.SelectorExpr)
+		return isSel && readOnly[se.Sel.Name]
+	}
+	ast.Inspect(fd.Body, func(n ast.Node) bool {
+		id, isId := n.(*ast.Ident)
+		if !isId || c.objOf(id) != holder {
+			return true
+		}
+		switch p := parents[id].(type) {
+		case *ast.SelectorExpr:
+			if !readOnly[p.Sel.Name] {
+				ok = false
+			}
+		case *ast.AssignStmt:
+		default:
+			ok = false
+		}
+		return true
+	})
+	return ok
 }
